@@ -1,6 +1,6 @@
 """C19 — job filters mean what they say; cleaning commands delete only what is selected."""
 FUNCS = ["JobInformation.state", "VarExpr.get", "ConstantString.get", "BaseInExpr.__init__", "RegexExpr.__init__",
-         "InExpr.filter", "NotInExpr.filter", "RegexExpr.filter", "LogicExpr.filter"]
+         "InExpr.filter", "NotInExpr.filter", "RegexExpr.filter", "LogicExpr.filter", "LogicExpr.summary"]
 LEVEL = "proof"
 TRUSTED = []
 
